@@ -70,6 +70,18 @@ def compute_summary_sum(summary_counts):
     return counts_sum
 
 
+def select_status_count(status_counts, status, default=None):
+    """Select the count for a status.
+    Status counts are keyed by status name (SummaryReporterV1)
+    or by status enum-value (StatusCounts).
+    """
+    if status.name in status_counts:
+        return status_counts[status.name]
+    elif status in status_counts:
+        return status_counts[status]
+    return default
+
+
 def format_summary_with_schema(statement_type, status_counts,
                                schema=None, item_schema=None,
                                use_passed_for_all=False,
@@ -92,16 +104,16 @@ def format_summary_with_schema(statement_type, status_counts,
     suffix = ""
     parts = []
     for status in STATUS_ORDER:
-        if status.name not in status_counts:  # MAYBE: or (status not in status_counts)
+        counts = select_status_count(status_counts, status)
+        if counts is None:
             continue
-        counts = status_counts.get(status.name, 0)
         if status in OPTIONAL_STATUS_PARTS_V2 and counts == 0:
             # -- SHOW-ONLY: For relevant counts, suppress: untested items, etc.
             continue
         parts.append((status.name, counts))
 
     if use_passed_for_all:
-        counts_total = status_counts.get(Status.passed, 0)
+        counts_total = select_status_count(status_counts, Status.passed, 0)
         suffix = " passed"
     else:
         counts_total = status_counts.get("all", None)
@@ -144,9 +156,9 @@ def format_summary_with_schema(statement_type, status_counts,
 def format_summary_v1(statement_type, summary):
     parts = []
     for status in STATUS_ORDER:
-        if status.name not in summary:
+        counts = select_status_count(summary, status)
+        if counts is None:
             continue
-        counts = summary[status.name]
         if status in OPTIONAL_STATUS_PARTS_V1 and counts == 0:
             # -- SHOW-ONLY: For relevant counts, suppress: untested items, etc.
             continue
